@@ -112,4 +112,64 @@ theorem validateBlocks_pairsOk (body : List BHdr) (bs : Nat) (h : validateBlocks
   simp only [Bool.and_eq_true] at h
   exact h.2
 
+/-! ### the stores after a successful import, seen by a second `validateChainContinuity` -/
+
+theorem verifyAt_append_old (F : File) (B D : List BHdr) (Fl D' : List Nat) (v : Verify) (h : Nat)
+    (hb : h < B.length) (hf : h < Fl.length) :
+    verifyAt F (mk (B ++ D) (Fl ++ D')) v h = verifyAt F (mk B Fl) v h := by
+  have e1 : (mk (B ++ D) (Fl ++ D')).blocks[h]? = (mk B Fl).blocks[h]? := by
+    show (B ++ D)[h]? = B[h]?
+    exact List.getElem?_append_left hb
+  have e2 : (mk (B ++ D) (Fl ++ D')).filters[h]? = (mk B Fl).filters[h]? := by
+    show (Fl ++ D')[h]? = Fl[h]?
+    exact List.getElem?_append_left hf
+  cases v <;> simp only [verifyAt, verifyBlockAt, verifyFilterAt, e1, e2]
+
+/-- at a height the import has just filled from the file, file and stores agree -/
+theorem verifyAt_appended (F : File) (B : List BHdr) (Fl : List Nat) (a h : Nat)
+    (hs : F.bstart = 0) (hB : B.length = a) (hF : Fl.length = a) (hN : F.filters.length = F.blocks.length)
+    (ha : a ≤ h) (hh : h < F.blocks.length) :
+    verifyAt F (mk (B ++ F.blocks.drop a) (Fl ++ F.filters.drop a)) .both h = true := by
+  have e1 : (mk (B ++ F.blocks.drop a) (Fl ++ F.filters.drop a)).blocks[h]? = F.blocks[h]? := by
+    show (B ++ F.blocks.drop a)[h]? = F.blocks[h]?
+    rw [List.getElem?_append_right (by omega), List.getElem?_drop, hB]
+    congr 1; omega
+  have e2 : (mk (B ++ F.blocks.drop a) (Fl ++ F.filters.drop a)).filters[h]? = F.filters[h]? := by
+    show (Fl ++ F.filters.drop a)[h]? = F.filters[h]?
+    rw [List.getElem?_append_right (by omega), List.getElem?_drop, hF]
+    congr 1; omega
+  have g1 : F.blocks[h]? = some F.blocks[h] := List.getElem?_eq_getElem hh
+  have g2 : F.filters[h]? = some (F.filters[h]'(by omega)) := List.getElem?_eq_getElem (by omega)
+  simp only [verifyAt, verifyBlockAt, verifyFilterAt, e1, e2, hs, Nat.sub_zero, g1, g2, beq_self_eq_true, Bool.and_self]
+
+/-- after a successful import of a file from height 0 into level stores, the
+same file passes `validateChainContinuity` against the new stores -/
+theorem continuity_after_success (F : File) (B : List BHdr) (Fl : List Nat)
+    (hs : F.bstart = 0) (hl : B.length ≥ 1) (heq : B.length = Fl.length)
+    (hN : F.filters.length = F.blocks.length) (hne : F.blocks.length ≥ 1)
+    (hc : continuity F (mk B Fl) = none) :
+    continuity F (mk (B ++ F.blocks.drop B.length) (Fl ++ F.filters.drop B.length)) = none := by
+  have hfacts := (continuity_overlap_iff F (mk B Fl) (B.length - 1) (Fl.length - 1)
+    (bChainTip_mk B Fl hl) (fChainTip_mk B Fl (by omega)) (by omega)).mp hc
+  have hlB : (B ++ F.blocks.drop B.length).length ≥ 1 := by rw [List.length_append]; omega
+  have hlF : (Fl ++ F.filters.drop B.length).length ≥ 1 := by rw [List.length_append]; omega
+  have hlenB : (B ++ F.blocks.drop B.length).length = B.length + (F.blocks.length - B.length) := by
+    rw [List.length_append, List.length_drop]
+  have hlenF : (Fl ++ F.filters.drop B.length).length = Fl.length + (F.filters.length - B.length) := by
+    rw [List.length_append, List.length_drop]
+  rw [continuity_overlap_iff F _ _ _ (bChainTip_mk _ _ hlB) (fChainTip_mk _ _ hlF) (by omega)]
+  unfold overlapFacts at hfacts ⊢
+  have hoe' : min (min ((B ++ F.blocks.drop B.length).length - 1) ((Fl ++ F.filters.drop B.length).length - 1))
+      (endHeight F) = endHeight F := by
+    rw [hlenB, hlenF]; unfold endHeight; omega
+  rw [hoe']
+  refine ⟨?_, fun hgt => ?_, fun hlt => absurd hlt (Nat.lt_irrefl _)⟩
+  · rw [hs, verifyAt_append_old F B _ Fl _ .both 0 (by omega) (by omega), ← hs]; exact hfacts.1
+  · by_cases hcase : endHeight F < B.length
+    · rw [verifyAt_append_old F B _ Fl _ .both _ hcase (by omega)]
+      have hoe : min (min (B.length - 1) (Fl.length - 1)) (endHeight F) = endHeight F := by omega
+      rw [hoe] at hfacts
+      exact hfacts.2.1 hgt
+    · exact verifyAt_appended F B Fl B.length (endHeight F) hs rfl heq.symm hN (by omega) (by unfold endHeight; omega)
+
 end Neutrino.Import
